@@ -85,6 +85,16 @@ def run(run: core.Run, tier: str):
       "tf.GradientTape (value, gradient) compared exactly with the Lean dual-number model (the implementation's "
       "scale is an oracle input of the auto-scaled transcriptions); the clause oracle checks on the real code "
       "gradient == surrogate' and value == x_u + qnoise_factor * (q(x) - x_u); "
+      "round 2 streams, all through the same tie and oracle: use_stochastic_rounding=True for every class that has "
+      "the flag (+ stochastic_binary / stochastic_ternary / bernoulli / quantized_hswish) in learning phase 0 AND 1 "
+      "(tf.random.uniform patched to fixed draws: odd/128, 0, 1-2^-23, random k/2^23); every legal negative_slope "
+      "{0, 1/8, 1/2, 1, 2, 4} x max_value / bounds (incl. relu_upper_bound=0.0) x use_ste x qnoise_factor {1, 0, 1/2} "
+      "for quantized_relu_po2 and quantized_relu, slope as int / numpy, use_sigmoid, quadratic_approximation, "
+      "log2_rounding='floor' together with the flag; histories on ONE object (used on another rank, then "
+      "update_qnoise_factor via attribute / tf.Variable / tf.Variable argument / assignment / use_ste flip / second "
+      "call) compared with a fresh twin; tensors of rank 0..5 with unit dimensions, tf.Variable inputs; numeric options "
+      "as numpy scalars / 0-d arrays / tf.constant / tf.Variable; set_internal_sigmoid modes in both orders, "
+      "learning phase 1 without the flag, channels_first; "
       "non-trivial = distinct (configuration, input)")
   F32 = lambda v: F(float(np.float32(v)))
   lines, meta = [], []
@@ -484,7 +494,7 @@ def run(run: core.Run, tier: str):
                 # which only the stochastic training branch can see (fraction 0 instead of 2^-25)
                 exact=(stoch and bits == 1 and bool(kn)))
 
-  def S_relu(bits, integer, slope, iqc, upper, ste, qf, stoch=False, slope_arg=None):
+  def S_relu(bits, integer, slope, iqc, upper, ste, qf, stoch=False, slope_arg=None, use_sigmoid=0):
     nsb = bits - (slope != 0)
     bound = 2.0 ** integer - 2.0 ** (integer - nsb)
     b_eff = bound if iqc else (upper if upper is not None else None)
@@ -492,7 +502,7 @@ def run(run: core.Run, tier: str):
     def make(**o):
       kw = dict(bits=bits, integer=integer, negative_slope=slope if slope_arg is None else slope_arg,
                 relu_upper_bound=upper, is_quantized_clip=iqc, use_ste=ste, qnoise_factor=float(qf),
-                use_stochastic_rounding=stoch)
+                use_stochastic_rounding=stoch, use_sigmoid=use_sigmoid)
       kw.update(o)
       return Q.quantized_relu(**kw)
     fac = F(1) if ste else 1 - qf
@@ -503,27 +513,31 @@ def run(run: core.Run, tier: str):
                 surrogate=lambda xs, ex: ("relu", (F(slope), None if b_eff is None else F32(b_eff), fac)),
                 mix=(F(slope), None if b_eff is None else F32(b_eff)), qf=qf, stoch=stoch,
                 key=dict(cls="quantized_relu", use_ste=ste, qf_is_1=(qf == 1)),
-                label="quantized_relu(%d,%d,negative_slope=%s,relu_upper_bound=%s,is_quantized_clip=%s,use_ste=%s,"
-                "qnoise_factor=%s)" % (bits, integer, slope, upper, iqc, ste, qf),
+                label="quantized_relu(%d,%d,%snegative_slope=%s,relu_upper_bound=%s,is_quantized_clip=%s,use_ste=%s,"
+                "qnoise_factor=%s)" % (bits, integer, "use_sigmoid=1," if use_sigmoid else "", slope, upper, iqc, ste, qf),
+                exact=bool(use_sigmoid),
                 edges=[0.0, bound, 2.0 ** (integer - nsb) * 0.5] + ([upper] if upper else []),
                 span=2.0 ** integer * 1.5)
 
-  def S_po2(bits, mv, ste, qf, stoch=False):
+  def S_po2(bits, mv, ste, qf, stoch=False, **more):
     def make(**o):
       kw = dict(bits=bits, max_value=mv, use_ste=ste, qnoise_factor=float(qf), use_stochastic_rounding=stoch)
+      kw.update(more)
       kw.update(o)
       return Q.quantized_po2(**kw)
     return dict(cls="quantized_po2", make=make, one=dict(use_ste=True, qnoise_factor=1.0), op="po2", cfg=dict(),
                 extra=lambda xs, y1: dict(use_ste=ste, qf=core.rj(qf), xqs=core.enc_list(y1)),
                 surrogate=lambda xs, ex: ("scaled_identity", (F(1) if ste else 1 - qf)), mix="identity", qf=qf, stoch=stoch,
                 key=dict(cls="quantized_po2", use_ste=ste, qf_is_1=(qf == 1)),
-                label="quantized_po2(%d,%s,use_ste=%s,qnoise_factor=%s)" % (bits, mv, ste, qf),
+                label="quantized_po2(%d,%s,use_ste=%s,qnoise_factor=%s%s)" % (
+                    bits, mv, ste, qf, "".join(",%s=%s" % kv for kv in more.items())),
                 edges=[0.0, 1.0, mv or 4.0], span=4.0, exact=True)
 
-  def S_relu_po2(bits, mv, slope, ste, qf, stoch=False, slope_arg=None):
+  def S_relu_po2(bits, mv, slope, ste, qf, stoch=False, slope_arg=None, **more):
     def make(**o):
       kw = dict(bits=bits, max_value=mv, negative_slope=slope if slope_arg is None else slope_arg, use_ste=ste,
                 qnoise_factor=float(qf), use_stochastic_rounding=stoch)
+      kw.update(more)
       kw.update(o)
       return Q.quantized_relu_po2(**kw)
     fac = F(1) if ste else 1 - qf
@@ -533,7 +547,8 @@ def run(run: core.Run, tier: str):
                 surrogate=lambda xs, ex: ("relu", (F(slope), None if mv is None else F32(mv), fac)),
                 mix=(F(slope), None if mv is None else F32(mv)), qf=qf, stoch=stoch,
                 key=dict(cls="quantized_relu_po2", use_ste=ste, qf_is_1=(qf == 1)),
-                label="quantized_relu_po2(%d,%s,negative_slope=%s,use_ste=%s,qnoise_factor=%s)" % (bits, mv, slope, ste, qf),
+                label="quantized_relu_po2(%d,%s,negative_slope=%s,use_ste=%s,qnoise_factor=%s%s)" % (
+                    bits, mv, slope, ste, qf, "".join(",%s=%s" % kv for kv in more.items())),
                 edges=[0.0, 1.0, mv or 4.0], span=4.0)
 
   def S_act(opn, bits, sym, real, stoch=False):
@@ -600,6 +615,24 @@ def run(run: core.Run, tier: str):
     if stream:
       run.count("stream_" + stream, len(xs))
 
+  class guard:
+    """the real code raising on a legal route (rank, argument form, history, switch) is reported as a clause
+    failure `raises` of that case instead of aborting the run"""
+
+    def __init__(self, spec, route):
+      self.spec, self.route = spec, route
+
+    def __enter__(self):
+      return self
+
+    def __exit__(self, et, ev, tb):
+      if et is None or not issubclass(et, Exception) or issubclass(et, core.InfraError):
+        return False
+      run.violate("raises", dict(self.spec["key"], route=self.route.split(":")[0]),
+                  {"config": self.spec["label"], "route": self.route,
+                   "exception": "%s: %s" % (et.__name__, str(ev).replace("\n", " ")[:300])}, mirrored=False)
+      return True
+
   def fresh(spec, xs, phase=0, U=None):
     ys, gs = measure(spec["make"](), xs, phase=phase, U=U)
     y1 = None if spec["one"] is None else value_of(spec["make"](**spec["one"]), xs, phase=phase, U=U)
@@ -625,17 +658,22 @@ def run(run: core.Run, tier: str):
         stoch_specs.append(S_po2(4, 2.0, ste, qf, stoch=True))
         stoch_specs.append(S_relu_po2(4, 2.0, 0.25, ste, qf, stoch=True))
         stoch_specs.append(S_relu_po2(4, None, 2.0, ste, qf, stoch=True))
+        # option combinations that are individually legal but rarely met together
+        stoch_specs.append(S_po2(4, None, ste, qf, stoch=True, log2_rounding="floor"))
+        stoch_specs.append(S_relu_po2(4, 2.0, 4.0, ste, qf, stoch=True, log2_rounding="floor", quadratic_approximation=True))
+        stoch_specs.append(S_relu(4, 1, 2.0, True, None, ste, qf, stoch=True, use_sigmoid=1))
     for bits, sym in [(4, 0), (3, 1)]:
       for opn in ("tanh", "sigmoid"):
         for real in (False, True):
           stoch_specs.append(S_act(opn, bits, sym, real, stoch=True))
     for phase in (0, 1):
       for spec in stoch_specs:
-        xs = spec_pts(spec)
-        U = draws(len(xs))
-        ys, gs, y1 = fresh(spec, xs, phase=phase, U=U)
-        emit(spec, xs, ys, gs, y1, " [use_stochastic_rounding=True, learning_phase=%d]" % phase, phase=phase, U=U,
-             stream="stoch_phase%d" % phase)
+        with guard(spec, "learning_phase=%d" % phase):
+          xs = spec_pts(spec)
+          U = draws(len(xs))
+          ys, gs, y1 = fresh(spec, xs, phase=phase, U=U)
+          emit(spec, xs, ys, gs, y1, " [use_stochastic_rounding=True, learning_phase=%d]" % phase, phase=phase, U=U,
+               stream="stoch_phase%d" % phase)
       # exact hard-surrogate model (short dyadic points only), stochastic flag
       for bits, sym in [(4, 0), (3, 1)]:
         for cls, opn in (("quantized_tanh", "tanh"), ("quantized_sigmoid", "sigmoid")):
@@ -684,7 +722,9 @@ def run(run: core.Run, tier: str):
                                 ("stochastic_binary", dict(alpha=1.0), False),
                                 ("stochastic_binary", dict(alpha="auto"), False),
                                 ("stochastic_binary", dict(alpha="auto_po2"), False),
-                                ("stochastic_binary", dict(), True)]:
+                                ("stochastic_binary", dict(), True),
+                                ("bernoulli", dict(), False), ("bernoulli", dict(alpha=0.5), False),
+                                ("bernoulli", dict(alpha="auto"), False), ("bernoulli", dict(alpha="auto_po2"), False)]:
         for shape in ((16,), (8, 3)):
           x2 = short_dyadics(rng, int(np.prod(shape)), -2, 2).reshape(shape)
           x2 = np.where(x2 == 0, np.float32(0.5), x2).astype(np.float32)
@@ -781,15 +821,25 @@ def run(run: core.Run, tier: str):
             if tier == "quick" and qf == 0 and not ste:
               continue
             slope_specs.append(S_relu(bits, integer, slope, iqc, upper, ste, qf))
+    for ste in (True, False):
+      for qf in (F(1), HALF):
+        slope_specs.append(S_relu(4, 1, 4.0, False, 1.5, ste, qf, use_sigmoid=1))
+        slope_specs.append(S_relu(4, 0, 0.0, True, None, ste, qf, use_sigmoid=1))
+        slope_specs.append(S_relu_po2(4, None, 2.0, ste, qf, quadratic_approximation=True))
+        slope_specs.append(S_relu_po2(4, 0.5, 4.0, ste, qf, log2_rounding="floor"))
+        slope_specs.append(S_po2(4, 2.0, ste, qf, quadratic_approximation=True, log2_rounding="floor"))
     for form, conv in (("int", int), ("np.float32", np.float32), ("np.float64", np.float64)):
       for slope in (1.0, 2.0, 4.0):
         slope_specs.append(dict(S_relu_po2(4, 2.0, slope, True, HALF, slope_arg=conv(slope)), tag=" [negative_slope as %s]" % form))
+        slope_specs.append(dict(S_relu_po2(4, None, slope, False, HALF, slope_arg=conv(slope)), tag=" [negative_slope as %s]" % form))
+        slope_specs.append(dict(S_relu(4, 2, slope, False, None, True, HALF, slope_arg=conv(slope)), tag=" [negative_slope as %s]" % form))
         slope_specs.append(dict(S_relu(4, 1, slope, True, None, False, HALF, slope_arg=conv(slope)), tag=" [negative_slope as %s]" % form))
     for spec in slope_specs:
-      xs = spec_pts(spec)
-      ys, gs, y1 = fresh(spec, xs)
-      emit(spec, xs, ys, gs, y1, spec.get("tag", ""), stream="slopes")
-      run.count("slope_%s" % spec["cfg"]["slope"][0] if spec["op"] == "relu_po2" else "slope_relu", len(xs))
+      with guard(spec, "slopes"):
+        xs = spec_pts(spec)
+        ys, gs, y1 = fresh(spec, xs)
+        emit(spec, xs, ys, gs, y1, spec.get("tag", ""), stream="slopes")
+        run.count("slopes_" + spec["cls"], len(xs))
 
     # ---------------------------------------------------------------------------------------------------
     # base specifications shared by the history / rank / argument-form / process-state streams
@@ -807,45 +857,46 @@ def run(run: core.Run, tier: str):
     hist = 0
     for qf, ste in ((HALF, True), (F(1), True), (F(1, 4), False), (F(0), True)):
       for spec in base_specs(qf, ste):
-        qf0 = F(1) if qf != 1 else F(1, 4)
-        xs = spec_pts(spec, 24)
-        warm = short_dyadics(rng, 12, -2, 2).reshape(2, 3, 2)
-        variants = ["update", "update_variable", "update_tfvar_arg", "assign", "twice"]
-        if "use_ste" in spec["one"]:
-          variants.append("flip_use_ste")
-        variant = variants[hist % len(variants)]
-        hist += 1
-        if variant == "update_variable":
-          q = spec["make"](qnoise_factor=float(qf0), use_variables=True)
-        elif variant == "flip_use_ste":
-          q = spec["make"](use_ste=not ste)
-        elif variant == "twice":
-          q = spec["make"]()
-        else:
-          q = spec["make"](qnoise_factor=float(qf0))
-        grad_of(q, warm)                                     # first use: another rank, under a tape
-        if variant in ("update", "update_variable"):
-          q.update_qnoise_factor(float(qf))
-        elif variant == "update_tfvar_arg":
-          q.update_qnoise_factor(tf.Variable(float(qf), dtype=tf.float32))
-        elif variant == "assign":
-          q.qnoise_factor = float(qf)
-        elif variant == "flip_use_ste":
-          q.use_ste = ste
-        else:
-          grad_of(q, xs[:5])
-        ys, gs = measure(q, xs)
-        y1 = value_of(spec["make"](**spec["one"]), xs)
-        emit(spec, xs, ys, gs, y1, " [history: %s, used before on a 2x3x2 tensor]" % variant, stream="history")
-        # fresh twin: identical outputs
-        ys2, gs2 = measure(spec["make"](), xs)
-        if not (np.array_equal(ys, ys2) and np.array_equal(gs, gs2)):
-          i = int(np.argmax((ys != ys2) | (gs != gs2)))
-          run.violate("history_twin", dict(spec["key"], variant=variant),
-                      {"config": spec["label"], "history": variant, "x": float(xs[i]),
-                       "value_grad_after_history": [float(ys[i]), float(gs[i])],
-                       "value_grad_fresh_twin": [float(ys2[i]), float(gs2[i])]}, mirrored=False)
-        run.count("history_" + variant)
+        with guard(spec, "history"):
+          qf0 = F(1) if qf != 1 else F(1, 4)
+          xs = spec_pts(spec, 24)
+          warm = short_dyadics(rng, 12, -2, 2).reshape(2, 3, 2)
+          variants = ["update", "update_variable", "update_tfvar_arg", "assign", "twice"]
+          if "use_ste" in spec["one"]:
+            variants.append("flip_use_ste")
+          variant = variants[hist % len(variants)]
+          hist += 1
+          if variant == "update_variable":
+            q = spec["make"](qnoise_factor=float(qf0), use_variables=True)
+          elif variant == "flip_use_ste":
+            q = spec["make"](use_ste=not ste)
+          elif variant == "twice":
+            q = spec["make"]()
+          else:
+            q = spec["make"](qnoise_factor=float(qf0))
+          grad_of(q, warm)                                     # first use: another rank, under a tape
+          if variant in ("update", "update_variable"):
+            q.update_qnoise_factor(float(qf))
+          elif variant == "update_tfvar_arg":
+            q.update_qnoise_factor(tf.Variable(float(qf), dtype=tf.float32))
+          elif variant == "assign":
+            q.qnoise_factor = float(qf)
+          elif variant == "flip_use_ste":
+            q.use_ste = ste
+          else:
+            grad_of(q, xs[:5])
+          ys, gs = measure(q, xs)
+          y1 = value_of(spec["make"](**spec["one"]), xs)
+          emit(spec, xs, ys, gs, y1, " [history: %s, used before on a 2x3x2 tensor]" % variant, stream="history")
+          # fresh twin: identical outputs
+          ys2, gs2 = measure(spec["make"](), xs)
+          if not (np.array_equal(ys, ys2) and np.array_equal(gs, gs2)):
+            i = int(np.argmax((ys != ys2) | (gs != gs2)))
+            run.violate("history_twin", dict(spec["key"], variant=variant),
+                        {"config": spec["label"], "history": variant, "x": float(xs[i]),
+                         "value_grad_after_history": [float(ys[i]), float(gs[i])],
+                         "value_grad_fresh_twin": [float(ys2[i]), float(gs2[i])]}, mirrored=False)
+          run.count("history_" + variant)
     # auto-scaled objects: first call on another tensor (another scale), then the crafted one
     for alpha in ("auto", "auto_po2"):
       for cls in ("quantized_bits", "quantized_linear"):
@@ -893,22 +944,23 @@ def run(run: core.Run, tier: str):
           else:
             parts = [(xs[:n].reshape(shape), )]
           for (xt_,) in parts:
-            var = (ri % 4 == 3)
-            ys, gs = measure(spec["make"](), xt_, variable=var)
-            y1 = None if spec["one"] is None else value_of(spec["make"](**spec["one"]), xt_)
-            if ys.shape != xt_.shape or gs.shape != xt_.shape:
-              run.violate("shape", dict(spec["key"], rank=len(shape)),
-                          {"config": spec["label"], "input_shape": list(shape), "output_shape": list(ys.shape),
-                           "gradient_shape": list(gs.shape)}, mirrored=False)
-              continue
-            emit(spec, xt_, ys, gs, y1, " on a rank-%d tensor %s%s" % (len(shape), list(shape), " (tf.Variable input)" if var else ""),
-                 stream="rank%d" % len(shape))
+            with guard(spec, "rank:%d %s" % (len(shape), list(shape))):
+              var = (ri % 4 == 3)
+              ys, gs = measure(spec["make"](), xt_, variable=var)
+              y1 = None if spec["one"] is None else value_of(spec["make"](**spec["one"]), xt_)
+              if ys.shape != xt_.shape or gs.shape != xt_.shape:
+                run.violate("shape", dict(spec["key"], rank=len(shape)),
+                            {"config": spec["label"], "input_shape": list(shape), "output_shape": list(ys.shape),
+                             "gradient_shape": list(gs.shape)}, mirrored=False)
+                continue
+              emit(spec, xt_, ys, gs, y1, " on a rank-%d tensor %s%s" % (len(shape), list(shape), " (tf.Variable input)" if var else ""),
+                   stream="rank%d" % len(shape))
         ri += 1
     # data-dependent scales on ranks 0..5: gradient clause only (rank 0 raises for quantized_bits: recorded count)
     for cls, kw in [("quantized_bits", dict(bits=5, integer=1, symmetric=1, alpha="auto")),
                     ("quantized_bits", dict(bits=5, integer=1, symmetric=1, alpha="auto_po2")),
-                    ("quantized_linear", dict(bits=5, integer=1, alpha="auto")),
-                    ("quantized_linear", dict(bits=5, integer=1, alpha="auto_po2")),
+                    ("quantized_linear", dict(bits=5, integer=1, symmetric=1, alpha="auto")),
+                    ("quantized_linear", dict(bits=5, integer=1, symmetric=1, alpha="auto_po2")),
                     ("binary", dict(alpha="auto")), ("binary", dict(alpha="auto_po2")),
                     ("ternary", dict(alpha="auto")), ("ternary", dict(alpha="auto_po2"))]:
       for shape in [(), (1,), (6,), (2, 3, 4), (2, 1, 3, 2), (1, 2, 3, 2, 2)]:
@@ -917,24 +969,77 @@ def run(run: core.Run, tier: str):
         w = po2w(shape)
         label = "%s(%s) on a rank-%d tensor %s" % (cls, ",".join("%s=%s" % kv for kv in kw.items()), len(shape), list(shape))
         try:
-          ys, gs = measure(getattr(Q, cls)(**kw), xs, w)
+          qobj = getattr(Q, cls)(**kw)
+          ys, gs = measure(qobj, xs, w)
         except Exception as e:  # pylint: disable=broad-except
           run.count("auto_scale_rank%d_raises_%s" % (len(shape), type(e).__name__))
           continue
-        for x, g in zip(xs.ravel(), gs.ravel()):
+        if ys.shape != xs.shape or gs.shape != xs.shape:
+          run.violate("shape", dict(cls=cls, alpha=kw["alpha"], rank=len(shape)),
+                      {"config": label, "output_shape": list(ys.shape), "gradient_shape": list(gs.shape)}, mirrored=False)
+          continue
+        if cls == "quantized_linear":
+          # clip range in units of the implementation's own scale (a 1-D tensor has one scale PER ELEMENT, an
+          # 'auto_po2' scale may round down: elements beyond the clip range legitimately have gradient 0)
+          qsv = np.broadcast_to(np.asarray(qobj.quantization_scale, dtype=np.float32), xs.shape).ravel()
+        inside = 0
+        for i, (x, g) in enumerate(zip(xs.ravel(), gs.ravel())):
           run.case((label, float(x)))
           run.compared += 1
+          want = F(1)
           if cls == "quantized_linear":
-            continue       # elements in the half-step band above clip_max legitimately have gradient 0
-          if F(float(g)) != 1:
+            # the scale is a generic float32 here: the clip test is on the float32 quotient, as in the code
+            r = F(float(np.float32(x) / np.float32(qsv[i])))
+            want = F(1) if -15 < r < 15 else (F(0) if (r < -15 or r > 15) else None)
+          inside += (want == 1)
+          if want is not None and F(float(g)) != want:
             run.violate("grad_ste", dict(cls=cls, alpha=kw["alpha"], kind="scaled_identity", use_ste=True, qf_is_1=True),
-                        {"config": label, "x": float(x), "grad": float(g), "expected": "1"}, mirrored=False)
+                        {"config": label, "x": float(x), "grad": float(g), "expected": str(want)}, mirrored=False)
             break
-        # (a lone element of quantized_linear may sit in the half-step band above clip_max: gradient 0 there)
-        if not np.all(np.isfinite(gs)) or (not np.any(gs != 0) and (cls != "quantized_linear" or xs.size >= 6)):
+        if not np.all(np.isfinite(gs)) or (inside > 0 and not np.any(gs != 0)):
           run.violate("nonzero", dict(cls=cls, alpha=kw["alpha"], use_ste=True, qf_is_1=True),
                       {"config": label, "note": "gradient identically zero or not finite"}, mirrored=False)
         run.count("stream_rank_auto", xs.size)
+
+    # ---- quantized_hswish (quantized_bits applied to x * relu6-like(x + shift) / bound): gradient = hswish'(x)
+    # as TensorFlow computes it on the same surrogate expression (oracle input), value = the quantized_bits
+    # twin applied to the surrogate value; both learning phases, with and without the flag
+    for bits, integer, shift, ub, qf in [(6, 2, 3, 6, F(1)), (5, 1, 2, 4, F(1, 4)), (8, 3, 3, 6, HALF)]:
+      for stoch in (False, True):
+        for phase in (0, 1):
+          xs = np.unique(np.concatenate([short_dyadics(rng, 20, -8, 8, bits=6),
+                                         np.array([-shift - 1, -shift + 0.5, ub - shift - 0.5, ub - shift + 1, 0.0, 0.5],
+                                                  dtype=np.float32)])).astype(np.float32)
+          U = draws(len(xs))
+          q = Q.quantized_hswish(bits, integer, 1, qnoise_factor=float(qf), use_stochastic_rounding=stoch,
+                                 relu_shift=shift, relu_upper_bound=ub)
+          ys, gs = measure(q, xs, phase=phase, U=U)
+          xt = tf.constant(xs)
+          with tf.GradientTape() as tape:
+            tape.watch(xt)
+            sx = xt + float(shift)
+            hs = xt * tf.where(sx <= float(ub), K.relu(sx), tf.ones_like(sx) * float(ub)) / float(ub)
+          dh = np.asarray(tape.gradient(hs, xt), dtype=np.float32)
+          twin = Q.quantized_bits(bits, integer, 1, qnoise_factor=float(qf), use_stochastic_rounding=stoch)
+          yt = value_of(twin, np.asarray(hs, dtype=np.float32), phase=phase, U=U)
+          label = ("quantized_hswish(%d,%d,1,qnoise_factor=%s,relu_shift=%d,relu_upper_bound=%d%s) [learning_phase=%d]"
+                   % (bits, integer, qf, shift, ub, ",use_stochastic_rounding=True" if stoch else "", phase))
+          key = dict(cls="quantized_hswish", stoch=stoch, phase=phase)
+          for x, y, g, d, t_ in zip(xs, ys, gs, dh, yt):
+            run.case((label, float(x)))
+            run.compared += 1
+            if abs(F(float(g)) - F(float(d))) > abs(F(float(d))) * F(1, 2 ** 21):
+              run.violate("grad_ste", dict(key, kind="hswish"),
+                          {"config": label, "x": float(x), "grad": float(g), "expected": float(d)}, mirrored=False)
+              break
+            if F(float(y)) != F(float(t_)):
+              run.violate("value_mix", dict(key, kind="hswish"),
+                          {"config": label, "x": float(x), "y": float(y), "quantized_bits_of_surrogate": float(t_)},
+                          mirrored=False)
+              break
+          if not np.any(gs != 0) or not np.all(np.isfinite(gs)):
+            run.violate("nonzero", key, {"config": label, "note": "gradient identically zero or not finite"}, mirrored=False)
+          run.count("stream_hswish", len(xs))
 
     # ---- stream `argforms`: the same numeric option in another form => the same behaviour
     forms = [("np.float32", np.float32), ("np.float64", np.float64), ("0-d ndarray", lambda v: np.array(v, dtype=np.float32)),
@@ -943,12 +1048,13 @@ def run(run: core.Run, tier: str):
     fi = 0
     for qf, ste in ((HALF, True), (F(1, 4), False), (F(1), True)):
       for spec in base_specs(qf, ste):
-        name, conv = forms[fi % len(forms)]
-        fi += 1
-        xs = spec_pts(spec, 24)
-        ys, gs = measure(spec["make"](qnoise_factor=conv(float(qf))), xs)
-        y1 = value_of(spec["make"](**spec["one"]), xs)
-        emit(spec, xs, ys, gs, y1, " [qnoise_factor as %s]" % name, stream="argforms")
+        with guard(spec, "argforms"):
+          name, conv = forms[fi % len(forms)]
+          fi += 1
+          xs = spec_pts(spec, 24)
+          ys, gs = measure(spec["make"](qnoise_factor=conv(float(qf))), xs)
+          y1 = value_of(spec["make"](**spec["one"]), xs)
+          emit(spec, xs, ys, gs, y1, " [qnoise_factor as %s]" % name, stream="argforms")
     for spec, over, what in [(S_bits(4, 1, 0, 1, None, True, HALF), dict(bits=np.int64(4), integer=np.int32(1)), "bits np.int64, integer np.int32"),
                              (S_linear(4, 1, 1, 1, None, HALF), dict(bits=np.int64(4), integer=np.int64(1)), "bits / integer np.int64"),
                              (S_relu(4, 1, 2.0, True, None, True, HALF), dict(bits=np.int64(4), integer=np.int64(1)), "bits / integer np.int64"),
@@ -957,37 +1063,40 @@ def run(run: core.Run, tier: str):
                              (S_relu_po2(4, 2.0, 2.0, True, HALF), dict(max_value=2), "max_value int"),
                              (S_relu_po2(4, 2.0, 2.0, False, HALF), dict(max_value=np.float32(2.0), bits=np.int64(4)), "max_value np.float32, bits np.int64"),
                              (S_po2(4, 2.0, True, HALF), dict(max_value=np.float64(2.0)), "max_value np.float64")]:
-      xs = spec_pts(spec, 24)
-      ys, gs = measure(spec["make"](**over), xs)
-      y1 = value_of(spec["make"](**spec["one"]), xs)
-      emit(spec, xs, ys, gs, y1, " [%s]" % what, stream="argforms")
+      with guard(spec, "argforms:" + what):
+        xs = spec_pts(spec, 24)
+        ys, gs = measure(spec["make"](**over), xs)
+        y1 = value_of(spec["make"](**spec["one"]), xs)
+        emit(spec, xs, ys, gs, y1, " [%s]" % what, stream="argforms")
 
     # ---- stream `process`: module-level switches.  (a) learning phase 1 WITHOUT the flag changes nothing;
     # (b) set_internal_sigmoid('hard' | 'smooth' | 'real') changes the surrogate of quantized_tanh / _sigmoid —
     # in both orders (construct -> switch -> call, switch -> construct -> call), the mode at CALL time counts;
     # (c) K.set_image_data_format('channels_first') for the per-channel scales of binary / ternary.
     for spec in base_specs(HALF, True) + [S_act("tanh", 4, 0, False), S_act("sigmoid", 3, 1, False), S_act("tanh", 3, 1, True)]:
-      xs = spec_pts(spec, 24)
-      U = draws(len(xs))
-      ys, gs, y1 = fresh(spec, xs, phase=1, U=U)
-      emit(spec, xs, ys, gs, y1, " [learning_phase=1, no stochastic rounding]", stream="process_phase1")
+      with guard(spec, "process:learning_phase=1"):
+        xs = spec_pts(spec, 24)
+        U = draws(len(xs))
+        ys, gs, y1 = fresh(spec, xs, phase=1, U=U)
+        emit(spec, xs, ys, gs, y1, " [learning_phase=1, no stochastic rounding]", stream="process_phase1")
     try:
       for mode in ("smooth", "real", "hard"):
         for order in ("switch_then_construct", "construct_then_switch"):
           for opn, bits, sym in (("tanh", 4, 0), ("sigmoid", 4, 1)):
             spec = S_act(opn, bits, sym, False)
-            xs = spec_pts(spec)
-            if order == "switch_then_construct":
-              Q.set_internal_sigmoid(mode)
-              q = spec["make"]()
-            else:
-              Q.set_internal_sigmoid("hard" if mode != "hard" else "smooth")
-              q = spec["make"]()
-              grad_of(q, xs[:4])
-              Q.set_internal_sigmoid(mode)
-            ys, gs = measure(q, xs)
-            emit(spec, xs, ys, gs, None, " [set_internal_sigmoid('%s'), %s]" % (mode, order), keyx=dict(sigmoid_mode=mode),
-                 stream="process_sigmoid")
+            with guard(spec, "process:set_internal_sigmoid %s %s" % (mode, order)):
+              xs = spec_pts(spec)
+              if order == "switch_then_construct":
+                Q.set_internal_sigmoid(mode)
+                q = spec["make"]()
+              else:
+                Q.set_internal_sigmoid("hard" if mode != "hard" else "smooth")
+                q = spec["make"]()
+                grad_of(q, xs[:4])
+                Q.set_internal_sigmoid(mode)
+              ys, gs = measure(q, xs)
+              emit(spec, xs, ys, gs, None, " [set_internal_sigmoid('%s'), %s]" % (mode, order), keyx=dict(sigmoid_mode=mode),
+                   stream="process_sigmoid")
     finally:
       Q.set_internal_sigmoid("hard")
     fmt0 = K.image_data_format()
@@ -1111,5 +1220,7 @@ def run(run: core.Run, tier: str):
                        "expected_y": float(want), "qnoise_factor": str(qf)}, mirrored=mirrored)
           break
       run.count("clause_value_mix", len(xs))
+  run.assumptions.append("tf.random.uniform is replaced by a stand-in returning fixed unit draws while the stochastic "
+                         "streams run (the gradient clauses do not depend on the draws; the value tie does)")
   run.assumptions.append("TF autodiff conventions (clip inclusive, leaky-relu slope at 0, zero gradient of "
                          "round/sign, stop_gradient) are definitions of the dual-number calculus, validated by the tie")
